@@ -982,7 +982,7 @@ def run(fx, rep, tier):
                     o["rule"] = "C12-R8"
                     sub.obls.append(o)
                     n8 += 1
-            sub.floor("C12-R8", "text slices in the lexer / parser", n8, 1)
+            sub.count("text slices in the lexer / parser", n8)
         if sub is not rep:
             for o in sub.obls:
                 o["key"] += "[rel]"
